@@ -568,6 +568,17 @@ pub(crate) fn unlink<P: ?Sized + NixPath>(f: &P) -> nix::Result<()> {
     }
 }
 
+/// Delete the temporary output at path `f` if it currently exists: a file or,
+/// when a .do script made a directory of its `$3`, that directory and its contents.
+pub(crate) fn unlink_output(f: &Path) -> std::io::Result<()> {
+    match unlink(f) {
+        Ok(()) => Ok(()),
+        // unlink(2) of a directory: EISDIR on Linux, EPERM elsewhere.
+        Err(Errno::EISDIR) | Err(Errno::EPERM) => std::fs::remove_dir_all(f),
+        Err(e) => Err(std::io::Error::from_raw_os_error(e as i32)),
+    }
+}
+
 /// Make a path absolute if it isn't already.
 pub fn abs_path<'p, 'q, P, Q>(cwd: &'p P, path: &'q Q) -> Cow<'q, Path>
 where
